@@ -265,6 +265,10 @@ def step (d : DSt) (j : Json) : DSt × List String :=
         let n' := (w'.nodes[i]?).getD n
         let c := ((peerOf n' peer).map (·.connected)).getD false
         ({ d with st := { st with w := w' } }, [s!"conn connected={c} queue={n'.queues.any (fun q => q.peer == peer)}"])
+  | "restart" =>
+    let i := jNat j "n"
+    let w' := st.w.step st.cfg (.restart i)
+    ({ d with st := { st with w := w' } }, [s!"restart {((w'.nodes[i]?).map stLine).getD "?"}"])
   | "evict" =>
     let w' := st.w.step st.cfg (.evict (jNat j "n"))
     ({ d with st := { st with w := w' } }, [s!"convs={((w'.nodes[jNat j "n"]?).map (·.convs.length)).getD 0}"])
